@@ -140,6 +140,25 @@ func (e *Engine) verifyCase(key string, fd *ast.FuncDecl, c *FuncContract, pinne
 	}
 	x.pre = st.clone()
 	x.pre.pc = nil
+	// lifted lemmas: the lemma's requires must cover this function's requires (checked before they are assumed)
+	for _, pb := range pinned {
+		if !caseSelected(pb, x.caseVals, x.caseLbl) {
+			continue
+		}
+		for li, lc := range pb.Lifts {
+			ls := st.clone()
+			lm, inst := x.liftInst(ls, x.specEnvPre(ls), lc)
+			for _, r := range lm.Requires {
+				ls.assume(asTerm(x.evalSpec(inst, r.E)), "lemma-requires")
+			}
+			for i, r := range c.Requires {
+				g := asTerm(x.evalSpec(x.specEnvPre(ls), r.E))
+				for j, cj := range splitConj(g) {
+					x.oblige(ls, "lift", fmt.Sprintf("lift/%s#%d/requires#%d.%d", lm.Name, li+1, i+1, j+1), cj, token.NoPos, "requires of "+lm.Name+" imply: "+r.Src)
+				}
+			}
+		}
+	}
 	// requires
 	envPre := x.specEnvPre(st)
 	for _, r := range c.Requires {
@@ -278,6 +297,37 @@ func (x *Exec) atReturn(s *State, vals []Value) {
 			}
 		}
 	}
+	// lifted lemmas: with F#k(args) *defined* as this function's results on args (deterministic function, M2),
+	// the lemma's ensures must hold at every return
+	for _, pb := range x.pinned {
+		if !caseSelected(pb, x.caseVals, x.caseLbl) {
+			continue
+		}
+		for li, lc := range pb.Lifts {
+			ls := s.clone()
+			env := mkEnv(pb.Lets)
+			env.st = ls
+			lm, inst := x.liftInst(ls, env, lc)
+			var args []Value
+			for _, pv := range x.params {
+				args = append(args, x.pre.vars[pv])
+			}
+			x.assumeAbstraction(ls, x.pre, x.eng.fnConst(x.fnObj), x.fnObj.Type().(*types.Signature), nil, args, vals)
+			for _, r := range lm.Requires {
+				ls.assume(asTerm(x.evalSpec(inst, r.E)), "lemma-requires")
+			}
+			for prop := range pb.Props {
+				for i, en := range lm.Ensures {
+					g := asTerm(x.evalSpec(inst, en.E))
+					for j, cj := range splitConj(g) {
+						o := x.oblige(ls, "lift", fmt.Sprintf("lift/%s#%d/ensures#%d.%d", lm.Name, li+1, i+1, j+1), cj, token.NoPos, lm.Name+": "+en.Src)
+						o.Prop = prop
+					}
+				}
+			}
+			x.eng.liftDone[lm.Name] = true
+		}
+	}
 	// vacuity guard: this exit must be reachable (the query `false` must NOT be provable)
 	o := x.oblige(s, "cover", "cover/exit", TFalse, end, "exit reachable under requires (must fail)")
 	o.Expect = "sat"
@@ -347,4 +397,68 @@ func (x *Exec) useLemma(st *State, env *SpecEnv, c Clause, where string, idx int
 		st.assume(Implies(guard, asTerm(x.evalSpec(inst, en.E))), "lemma:"+lm.Name)
 	}
 	x.eng.usedLemmas[lm.Name] = true
+}
+
+// liftInst resolves `lift lemma(args)` of a pinned block: the lemma must be declared `lifted <this function>`.
+func (x *Exec) liftInst(st *State, env *SpecEnv, c Clause) (*Lemma, *SpecEnv) {
+	call, ok := c.E.(*ECall)
+	if !ok {
+		fail("lift: expected lemma(args)")
+	}
+	lm := x.eng.specs.Lemmas[call.Fn]
+	if lm == nil {
+		fail("lift: unknown lemma %s", call.Fn)
+	}
+	if lm.Lifted != x.key {
+		fail("lift: lemma %s is declared `lifted %s`, not %s", lm.Name, lm.Lifted, x.key)
+	}
+	if x.contract == nil || !x.contract.Pure {
+		fail("lift: %s is not declared pure", x.key)
+	}
+	if len(call.Args) != len(lm.Params) {
+		fail("lift: lemma %s expects %d arguments", lm.Name, len(lm.Params))
+	}
+	// the instances must cover the lemma's whole domain: every argument is a distinct parameter or len(parameter)
+	seen := map[string]bool{}
+	isParamName := func(nm string) bool {
+		for _, pv := range x.params {
+			if pv.Name() == nm {
+				return true
+			}
+		}
+		return false
+	}
+	for _, a := range call.Args {
+		key := ""
+		switch a := a.(type) {
+		case *EIdent:
+			if isParamName(a.Name) {
+				key = a.Name
+			}
+		case *ECall:
+			if a.Fn == "len" && len(a.Args) == 1 {
+				if id, ok := a.Args[0].(*EIdent); ok && isParamName(id.Name) {
+					key = "len:" + id.Name
+				}
+			}
+		}
+		if key == "" || seen[key] {
+			fail("lift %s: every argument must be a distinct parameter or len(parameter) of %s", lm.Name, x.key)
+		}
+		seen[key] = true
+	}
+	n := env.child()
+	inst := env.child()
+	inst.bind = map[string]Value{}
+	inst.bindPre = inst.bind
+	for i, p := range lm.Params {
+		v := x.evalSpec(n, call.Args[i])
+		if strings.HasPrefix(p.Type, "seq<") {
+			inst.bound[p.Name] = SeqV{x.coerceSpecArg(n, v, p.Type, lm.Name)}
+		} else {
+			inst.bound[p.Name] = sc(x.coerceSpecArg(n, v, p.Type, lm.Name))
+		}
+	}
+	inst.lets = nil
+	return lm, inst
 }
